@@ -72,6 +72,7 @@ theorem segMatchValues_sim {rec₁ rec₂ : SegRec} (hrec : SegSim rec₁ rec₂
     | num q => simp only [segMatchValues]; exact ih a b hs
     | arr xs => simp only [segMatchValues]; exact ih a b hs
     | obj kvs => simp only [segMatchValues]; exact ih a b hs
+    | raw w => simp only [segMatchValues]; exact ih a b hs
 
 theorem clauseMatch_sim {rec₁ rec₂ : SegRec} (hrec : SegSim rec₁ rec₂) (chain : List String)
     (c : Clause) (a b : St) (hs : Sim a b) :
